@@ -496,6 +496,27 @@ func (g *c36gen) pattern() (string, string) {
 
 // roots whose bytes stay inside the subset when used unquoted in a pattern
 func (g *c36gen) subsetRoot() string {
+	for {
+		s := g.subsetRoot1()
+		// nested groups are outside the subset
+		d, ok := 0, true
+		for i := 0; i < len(s); i++ {
+			if s[i] == '(' {
+				d++
+				if d > 1 {
+					ok = false
+				}
+			} else if s[i] == ')' && d > 0 {
+				d--
+			}
+		}
+		if ok {
+			return s
+		}
+	}
+}
+
+func (g *c36gen) subsetRoot1() string {
 	depth := g.r.Intn(4)
 	s := "/"
 	for i := 0; i < depth; i++ {
